@@ -14,6 +14,7 @@
 #include "specs_data.hpp"
 
 #include <algorithm>
+#include <atomic>
 #include <chrono>
 #include <csignal>
 #include <cstdio>
@@ -57,6 +58,29 @@ static void fatal_handler(int sig)
     if (n > 0) { ssize_t w = write(1, buf, size_t(n)); (void)w; }
     _exit(sig == SIGALRM ? 78 : 77);
 }
+
+// Watchdog: a thread of its own, not alarm()/SIGALRM - under ThreadSanitizer an asynchronous signal is only delivered
+// when some thread reaches a safe point, and a run that hangs because every task is blocked on a lock of the code under
+// test (seeded S78) never does.
+static std::atomic<long long> g_deadline_ms{ 0 };     // 0 = disarmed
+static long long now_ms() { return std::chrono::duration_cast<std::chrono::milliseconds>(std::chrono::steady_clock::now().time_since_epoch()).count(); }
+static void* watchdog_main(void*)
+{
+    for (;;)
+    {
+        usleep(200000);
+        long long d = g_deadline_ms.load();
+        if (d != 0 && now_ms() > d) fatal_handler(SIGALRM);
+    }
+    return nullptr;
+}
+static void watchdog_arm(int seconds)
+{
+    static bool started = false;
+    if (!started) { started = true; pthread_t th; if (pthread_create(&th, nullptr, &watchdog_main, nullptr) == 0) pthread_detach(th); }
+    g_deadline_ms.store(now_ms() + 1000ll * seconds);
+}
+static void watchdog_disarm() { g_deadline_ms.store(0); }
 
 // sanitizer options: classify sanitizer deaths by exit code; leaks are not this tool's subject
 extern "C" __attribute__((used)) const char* __asan_default_options() { return "exitcode=77:detect_leaks=0:abort_on_error=0:allocator_may_return_null=1:detect_stack_use_after_return=0"; }
@@ -385,7 +409,7 @@ int main(int argc, char** argv)
     }
     if (mode == "replay")
     {
-        alarm(thorough ? 300 : 120);     // a replayed livelock must end too (exit 78 = reproduced hang)
+        watchdog_arm(thorough ? 300 : 120);     // a replayed livelock must end too (exit 78 = reproduced hang)
         int rc = replay_file(replay);
         simrt::shutdown_pool();
         return rc;
@@ -422,7 +446,7 @@ int main(int argc, char** argv)
             if (el > max_seconds) break;
         }
         g_cur_index = i;
-        alarm(thorough ? 300 : 120);
+        watchdog_arm(thorough ? 300 : 120);
         Plan p = pr->gen(seed, i, thorough);
         CaseCtx cx; cx.st = &st; cx.thorough = thorough;
         std::vector<Violation> vs = pr->run(p, cx);
@@ -476,7 +500,7 @@ int main(int argc, char** argv)
             ++violations;
             std::printf("VIOL %s\n", js::dump(j).c_str());
         }
-        alarm(0);
+        watchdog_disarm();
         if (i < 0) i = from - 1;
         if (violations + uncounted_extra >= 60) break;     // the verdict is settled; do not grind through a broken tree
     }
